@@ -2670,9 +2670,29 @@ class Matrix:
         if not isinstance(transform_str, str):
             raise TypeError("Must provide a string to parse")
 
+        unresolved = [False]
+
+        def length(text, axis):
+            # Lengths are resolved at once if the conversion data were given: an unresolved length
+            # cannot be combined with the translation accumulated so far.
+            rel = kwargs.get(axis)
+            if rel is None:
+                rel = kwargs.get("relative_length")
+            v = Length(text).value(
+                ppi=kwargs.get("ppi"),
+                relative_length=rel,
+                font_size=kwargs.get("font_size"),
+                font_height=kwargs.get("font_height"),
+                viewbox=kwargs.get("viewbox"),
+            )
+            if isinstance(v, Length):
+                unresolved[0] = True
+            return v
+
         for sub_element in REGEX_TRANSFORM_TEMPLATE.findall(transform_str.lower()):
             name = sub_element[0]
             state = (self.a, self.b, self.c, self.d, self.e, self.f)
+            unresolved[0] = False
             try:
                 params = tuple(REGEX_TRANSFORM_PARAMETER.findall(sub_element[1]))
                 params = [mag + units for mag, units in params]
@@ -2681,18 +2701,18 @@ class Matrix:
                     self.pre_cat(*params)
                 elif SVG_TRANSFORM_TRANSLATE == name:
                     try:
-                        x_param = Length(params[0]).value()
+                        x_param = length(params[0], "width")
                     except IndexError:
                         continue
                     try:
-                        y_param = Length(params[1]).value()
+                        y_param = length(params[1], "height")
                         self.pre_translate(x_param, y_param)
                     except IndexError:
                         self.pre_translate(x_param)
                 elif SVG_TRANSFORM_TRANSLATE_X == name:
-                    self.pre_translate(Length(params[0]).value(), 0)
+                    self.pre_translate(length(params[0], "width"), 0)
                 elif SVG_TRANSFORM_TRANSLATE_Y == name:
-                    self.pre_translate(0, Length(params[0]).value())
+                    self.pre_translate(0, length(params[0], "height"))
                 elif SVG_TRANSFORM_SCALE == name:
                     params = map(float, params)
                     self.pre_scale(*params)
@@ -2703,12 +2723,12 @@ class Matrix:
                 elif SVG_TRANSFORM_ROTATE == name:
                     angle = Angle.parse(params[0])
                     try:
-                        x_param = Length(params[1]).value()
+                        x_param = length(params[1], "width")
                     except IndexError:
                         self.pre_rotate(angle)
                         continue
                     try:
-                        y_param = Length(params[2]).value()
+                        y_param = length(params[2], "height")
                         self.pre_rotate(angle, x_param, y_param)
                     except IndexError:
                         self.pre_rotate(angle, x_param)
@@ -2720,42 +2740,42 @@ class Matrix:
                         self.pre_skew(angle_a, 0.0)
                         continue
                     try:
-                        x_param = Length(params[2]).value()
+                        x_param = length(params[2], "width")
                     except IndexError:
                         self.pre_skew(angle_a, angle_b)
                         continue
                     try:
-                        y_param = Length(params[3]).value()
+                        y_param = length(params[3], "height")
                         self.pre_skew(angle_a, angle_b, x_param, y_param)
                     except IndexError:
                         self.pre_skew(angle_a, angle_b, x_param)
                 elif SVG_TRANSFORM_SKEW_X == name:
                     angle_a = Angle.parse(params[0])
                     try:
-                        x_param = Length(params[1]).value()
+                        x_param = length(params[1], "width")
                     except IndexError:
                         self.pre_skew_x(angle_a)
                         continue
                     try:
-                        y_param = Length(params[2]).value()
+                        y_param = length(params[2], "height")
                         self.pre_skew_x(angle_a, x_param, y_param)
                     except IndexError:
                         self.pre_skew_x(angle_a, x_param)
                 elif SVG_TRANSFORM_SKEW_Y == name:
                     angle_b = Angle.parse(params[0])
                     try:
-                        x_param = Length(params[1]).value()
+                        x_param = length(params[1], "width")
                     except IndexError:
                         self.pre_skew_y(angle_b)
                         continue
                     try:
-                        y_param = Length(params[2]).value()
+                        y_param = length(params[2], "height")
                         self.pre_skew_y(angle_b, x_param, y_param)
                     except IndexError:
                         self.pre_skew_y(angle_b, x_param)
             except (IndexError, ValueError, TypeError, ArithmeticError):
-                if isinstance(state[4], Length) or isinstance(state[5], Length):
-                    # An unresolved length cannot be combined with a further function: not a malformed function.
+                if unresolved[0] or isinstance(state[4], Length) or isinstance(state[5], Length):
+                    # An unresolved length cannot be combined with other translations: not a malformed function.
                     raise
                 # A function with missing or malformed parameters is in error: it is ignored.
                 self.a, self.b, self.c, self.d, self.e, self.f = state
